@@ -105,6 +105,25 @@ S["shift3_near_end"] = dict(until=4, sims=[E("A", init_event=0, emit_default=0, 
                             conns=[C("A", "Z", "eo", "ti", shift=3), C("P", "Z", "po", "mi")])
 S["maxadv_inflight"] = dict(until=3, sims=[E("Cc", init_event=0, emit_default=0), E("D", init_event=0)],
                             conns=[C("Cc", "D", "eo", "ti", shift=1)])
+# scenarios with an unresolved cycle (run() must refuse them; if the cycle check lets one through,
+# it must still not hang)
+S["cycle_shift_then_plain"] = dict(until=2, max_budget=0, sims=[T("A"), T("B")],
+                                   conns=[C("A", "B", "po", "mi", shift=1, init=True),
+                                          C("A", "B", "po", "po"), C("B", "A", "po", "mi")])
+S["cycle_shift_then_plain_E"] = dict(until=3, max_budget=0,
+                                     sims=[E("A", init_event=0, emit_default=0, next=[1]),
+                                           E("B", emit_default=0)],
+                                     conns=[C("A", "B", "eo", "ti", shift=1), C("A", "B", "eo", "ti2"),
+                                            C("B", "A", "eo", "ti")])
+S["cycle_plain_then_shift"] = dict(until=2, max_budget=0, sims=[T("A"), T("B")],
+                                   conns=[C("A", "B", "po", "po"),
+                                          C("A", "B", "po", "mi", shift=1, init=True),
+                                          C("B", "A", "po", "mi")])
+S["cycle_weak_leaves_group"] = dict(until=2, max_budget=0, groups=G1,
+                                    sims=[E("A", group="g", init_event=0, emit_default=0),
+                                          E("B", group="g", emit_default=0), E("O", emit_default=0)],
+                                    conns=[C("A", "B", "eo", "ti", weak=True), C("B", "O", "eo", "ti"),
+                                           C("O", "A", "eo", "ti")])
 # ---- mixed inputs -------------------------------------------------------------------
 S["hyb_mixed_inputs"] = dict(until=3, sims=[T("A"), E("Q", init_event=0, emit=[0]), H("B", next_default=1)],
                              conns=[C("A", "B", "po", "mi"), C("Q", "B", "eo", "ti")])
